@@ -37,7 +37,11 @@
 (* list that ends in a comment token and for a stream without value and    *)
 (* comment (no newline at the end); "unspec" (any outcome) for an empty    *)
 (* list and for a stream whose last content token is a comment handed in   *)
-(* as an iterator or followed by separators; otherwise the text.           *)
+(* as an iterator or followed by separators; otherwise the text.  Form     *)
+(* "fault" (SIZE_STRESS part 5): the caller's token iterator raises after  *)
+(* some tokens -- the caller's exception comes out ("CallerError"); the    *)
+(* formatter keeps no state, so the identical valid call afterwards is     *)
+(* judged like any other call.                                             *)
 (* STATEMENT checked by TLC for every stream up to MaxInp tokens           *)
 (* (InvLayout): the pieces obey the run-time contract (comments directly   *)
 (* after a newline, a blank in front of every value, no two values without *)
@@ -80,7 +84,8 @@ BadTok(t) == \/ t[1] = "V" /\ t[2] \in {"lead", "trail"}
              \/ t[1] = "C" /\ t[2] \in {"nohash", "nonl"}
 FR(v, out) == [v |-> v, out |-> out]
 FFOut(form, nameLen, sep, inp) ==
-   IF inp = <<>> THEN (IF form = "list" THEN FR("unspec", <<>>) ELSE FR("ValueError", <<>>))
+   IF form = "fault" THEN (IF \E i \in 1..Len(inp) : BadTok(inp[i]) THEN FR("unspec", <<>>) ELSE FR("CallerError", <<>>))
+   ELSE IF inp = <<>> THEN (IF form = "list" THEN FR("unspec", <<>>) ELSE FR("ValueError", <<>>))
    ELSE IF form = "list" /\ inp[Len(inp)][1] = "C" THEN FR("ValueError", <<>>)
    ELSE IF \E i \in 1..Len(inp) : BadTok(inp[i]) THEN FR("ValueError", <<>>)
    ELSE IF Contents(inp) = {} THEN FR("ValueError", <<>>)
